@@ -47,6 +47,8 @@ static BTree h_alloc(ULong nbytes)
 	__CPROVER_assume(b != 0);
 	__CPROVER_assert(nbytes == btreeNodeSize(BT_T) && 2 * BT_T < NARY, "CHECK node allocator: the unit asks for a node of 2t parts");
 #endif
+	{ int i; for (i = 0; i < 2 * BT_T; i++) b->part[i].branch = 0; }	/* keys/entries stay arbitrary; a branch the unit
+										   has not set is NULL, so following it is trapped */
 	b->part[2 * BT_T].key = BT_GUARD; b->part[2 * BT_T].entry = (BTreeElt) BT_GUARD; b->part[2 * BT_T].branch = (BTree) BT_GUARD;
 	if (g_nnodes < BT_MAXNODES) g_nodes[g_nnodes] = b;
 	g_nnodes++;
